@@ -305,6 +305,41 @@ func c15Run(c *fw.Ctx, b fw.Batch) {
 			}
 		}
 		mimetype.VerifResetTree()
+		// two formats whose alias lists are adjacent windows of ONE caller-owned table:
+		// no helper call may make one format answer to (or lose) the other's names
+		for i := 0; i < b.N/4+5; i++ {
+			table := []string{fmt.Sprintf("application/x-verif-c15-w-%d-a", i), fmt.Sprintf("application/x-verif-c15-w-%d-b", i), fmt.Sprintf("application/x-verif-c15-w-%d-c", i), "SENTINEL"}
+			n1, n2 := fmt.Sprintf("application/x-verif-c15-win-%d-1", i), fmt.Sprintf("application/x-verif-c15-win-%d-2", i)
+			det := func([]byte, uint32) bool { return false }
+			mimetype.Extend(det, n1, ".w1", table[:1]...)
+			mimetype.Extend(det, n2, ".w2", table[1:3]...)
+			f1, f2 := mimetype.Lookup(n1), mimetype.Lookup(n2)
+			for k := 0; k < 3; k++ { // helper calls of every kind on both formats
+				f1.Is(n2)
+				f1.Is("text/plain; q=1")
+				f2.Is(table[0])
+				mimetype.EqualsAny(n1, n2, table[1])
+			}
+			c.Eval(1)
+			want := map[string]string{table[0]: n1, table[1]: n2, table[2]: n2, n1: n1, n2: n2}
+			for nm, owner := range want {
+				lk := mimetype.Lookup(nm)
+				if lk == nil || lk.String() != owner || !lk.Is(nm) {
+					c.Violate("lookup-is", "alias-windows "+nm, fmt.Sprintf("after Is / EqualsAny calls on two formats registered with adjacent windows of one alias table, Lookup(%q) = %v, want the format %s", nm, lk, owner), c15Payload{What: "extend", S: nm})
+				}
+			}
+			if f1.Is(table[1]) || f1.Is(n2) || f2.Is(table[0]) || f2.Is(n1) {
+				c.Violate("is-wrong", "alias-windows-cross", "a format answers Is() for a name that belongs to the other format registered from the same alias table", c15Payload{What: "extend", S: n1})
+			}
+			if table[3] != "SENTINEL" || table[0][len(table[0])-1] != 'a' || table[1][len(table[1])-1] != 'b' {
+				c.Violate("is-wrong", "alias-table-written", fmt.Sprintf("the caller's alias table was modified: %q", table), c15Payload{What: "extend", S: n1})
+			}
+			c.Distinct("alias-windows")
+			if i%100 == 99 {
+				mimetype.VerifResetTree()
+			}
+		}
+		mimetype.VerifResetTree()
 	case "results":
 		seeds := lib.Seeds()
 		for i := 0; i < b.N; i++ {
